@@ -26,12 +26,85 @@ type projReg struct {
 	ctors []*types.Func
 }
 
-// projRegistry reads registerTrans(F, "name", …) calls from the init functions of package proj.
+var projRegMemo = map[*Ctx]*projReg{}
+
+// projRegistry: the registered projections, name → constructor.  Read from the package as it
+// stands after initialisation — every package-level map from strings to functions of a reference
+// that return two members and an error, whatever fills it (init functions, a var initialiser, a
+// function that builds the table) — through the interpreter; the registerTrans(F, "name", …)
+// calls of the init functions are read from the syntax only when that finds nothing.
 func projRegistry(c *Ctx) *projReg {
+	if r, ok := projRegMemo[c]; ok {
+		return r
+	}
+	r := projRegistryUncached(c)
+	projRegMemo[c] = r
+	return r
+}
+
+func projRegistryUncached(c *Ctx) *projReg {
 	p := c.P.Pkg("proj")
 	r := &projReg{names: map[string]*types.Func{}}
 	if p == nil {
 		return r
+	}
+	isCtorSig := func(t types.Type) bool {
+		sig, ok := t.Underlying().(*types.Signature)
+		if !ok || sig.Params().Len() != 1 || sig.Results().Len() != 3 {
+			return false
+		}
+		_, ptr := sig.Params().At(0).Type().(*types.Pointer)
+		return ptr && types.Identical(sig.Results().At(2).Type(), types.Universe.Lookup("error").Type())
+	}
+	if m, _ := newC20m(c); m != nil {
+		seen := map[*types.Func]bool{}
+		sc := p.Types.Scope()
+		for _, n := range sc.Names() {
+			v, ok := sc.Lookup(n).(*types.Var)
+			if !ok {
+				continue
+			}
+			mt, ok := v.Type().Underlying().(*types.Map)
+			if !ok || !isCtorSig(mt.Elem()) {
+				continue
+			}
+			if b, ok := mt.Key().Underlying().(*types.Basic); !ok || b.Kind() != types.String {
+				continue
+			}
+			cell := m.it.global(v)
+			if cell == nil {
+				continue
+			}
+			mp, ok := (*cell).(oMap)
+			if !ok || mp.keys == nil {
+				continue
+			}
+			for i, k := range *mp.keys {
+				name, ok := strOf(k)
+				if !ok {
+					continue
+				}
+				var ctor *types.Func
+				switch fv := (*mp.vals)[i].(type) {
+				case oFuncRef:
+					ctor = fv.f
+				case oBound:
+					ctor = fv.f
+				}
+				if ctor == nil || c.P.Decl(ctor) == nil {
+					continue
+				}
+				r.names[strings.ToLower(name)] = ctor
+				if !seen[ctor] {
+					seen[ctor] = true
+					r.ctors = append(r.ctors, ctor)
+				}
+			}
+		}
+		if len(r.names) > 0 {
+			sort.Slice(r.ctors, func(i, j int) bool { return c.P.Decl(r.ctors[i]).Pos() < c.P.Decl(r.ctors[j]).Pos() })
+			return r
+		}
 	}
 	info := p.TypesInfo
 	seen := map[*types.Func]bool{}
